@@ -33,3 +33,57 @@ def sizes_ok(frs, size):
 
 def le16(n):
     return bytes([n % 256, n // 256])
+
+
+@spec(args=[Frags], ret=Bytes, fuel=2)
+def rbody(frs):
+    """response body the controller must assemble from the accessory's fragments: the first carries a 5-byte
+    header (control, tid, status, bodylen16), every continuation a 2-byte one (control|0x80, tid)"""
+    if len(frs) == 0:
+        return b""
+    if len(frs) == 1:
+        return frs[0][5:]
+    return rbody(frs[:-1]) + frs[-1][2:]
+
+
+from specs.crypto import seal
+from specs.framing import nonce
+
+
+@spec(args=[Bytes, Int, Frags, Int], ret=Frags)
+def enc_seq(key, ctr, frs, n):
+    """the first n fragments, each sealed on its own: fragment i under nonce(ctr + i) with empty AAD"""
+    if n <= 0:
+        return []
+    return enc_seq(key, ctr, frs, n - 1) + [seal(key, nonce(ctr + n - 1), b"", frs[n - 1])]
+
+
+# CoAP batches ---------------------------------------------------------------------------------------
+
+from pyvc.api import TupleOf
+
+# a per-item result: (kind, body) with kind -1 for a body (success) and the PDUStatus value otherwise
+ResItem = TupleOf(Int, Bytes)
+ResList = ListOf(ResItem)
+
+
+def coap_item_len(d):
+    return d[3] + 256 * d[4]
+
+
+def coap_item_kind(tid, d):
+    """-1 = ok (body follows); 256 tid mismatch; status value 1..6; 257 response bit missing"""
+    return 256 if d[1] != tid else (d[2] if d[2] != 0 else (257 if (d[0] // 2) % 8 != 1 else -1))
+
+
+@spec(args=[Int, Int, Bytes, Int], ret=ResList)
+def dec_all_from(start, k, data, off):
+    """results of the items of a batch response from byte offset off on; item j must carry tid start+j; the
+    offset always advances by 5 + declared body length, whatever the item's outcome"""
+    d = data[off:]
+    n = coap_item_len(d)
+    kind = coap_item_kind(start + k, d)
+    item = (kind, d[5: 5 + n] if kind == -1 else b"")
+    if off + 5 + n >= len(data):
+        return [item]
+    return [item] + dec_all_from(start, k + 1, data, off + 5 + n)
